@@ -53,6 +53,10 @@ def make(spec):
                     kw.pop(kname + '_types', None)
     if spec.get('extra'):
         kw.update(extra_atom_labels=['_atom_site_occupancy', '_atom_site_note'], extra_atom_fields=[['1.0', 'a%d' % i] for i in range(n)])
+        if spec['seed'] % 2:
+            # a column that holds the placeholder only (what merging structures with different columns leaves behind): it is still a column
+            kw['extra_atom_labels'].append('_atom_site_calc_flag')
+            kw['extra_atom_fields'] = [r + ['.'] for r in kw['extra_atom_fields']]
         if spec.get('terms') and n >= 4:
             kw.update(extra_bond_labels=['_geom_bond_distance', '_ccdc_geom_bond_type'], extra_bond_fields=[['1.%d' % i, 'S'] for i in range(3)],
                       extra_angle_labels=['_geom_angle'], extra_angle_fields=[['109.%d' % i] for i in range(2)],
@@ -167,9 +171,12 @@ O1 O 0.0 0.0000(1) 1.000(3)
 """
 
 
-def check_reading(sg, expect_reject):
+def check_reading(sg, expect_reject, number=None):
     from mofun import Atoms
     text = HAND % sg
+    if number is not None:
+        # files also carry the International Tables number; the property is about the declared Hermann-Mauguin name
+        text = text.replace("_cell_length_a", "_symmetry_Int_Tables_number    %d\n_cell_length_a" % number, 1)
     with quiet():
         try:
             a = Atoms.load_p1_cif(io.StringIO(text))
@@ -189,7 +196,7 @@ def check_reading(sg, expect_reject):
 
 def replay(inp):
     if 'sg' in inp:
-        msg = check_reading(inp['sg'], inp['reject'])
+        msg = check_reading(inp['sg'], inp['reject'], inp.get('number'))
     else:
         msg = check(inp)
     return (msg is not None), (msg or 'CIF round trip holds')
@@ -243,3 +250,9 @@ def run(rec, tier, seed):
         rec.case(('sg', sg), group='reading')
         if msg:
             rec.fail('cif', 'cif-spacegroup', msg, {'sg': sg, 'reject': True}, 'C15/spacegroup')
+    # the declared name decides, whatever number tag accompanies it (a P1 file whose name was edited keeps "1"; a wrong number does not make P1 something else)
+    for sg, number, reject in (('P -1', 1, True), ('P 21/c', 1, True), ('F m -3 m', 1, True), ('P -1', 2, True), ('P1', 1, False), ('P 1', 1, False)):
+        msg = check_reading(sg, reject, number)
+        rec.case(('sg', sg, number), group='reading')
+        if msg:
+            rec.fail('cif', 'cif-spacegroup' if reject else 'cif-reading', msg + " (with _symmetry_Int_Tables_number %d)" % number, {'sg': sg, 'reject': reject, 'number': number}, 'C15/spacegroup')
